@@ -8,7 +8,10 @@ pub mod c03;
 pub mod c04;
 pub mod c05;
 pub mod c08;
+pub mod c10;
 pub mod c12;
+pub mod c13;
+pub mod c14;
 pub mod common;
 pub mod dynamic;
 pub mod c17;
@@ -21,7 +24,10 @@ pub fn run(ctx: &Ctx) -> i32 {
         "C04" => c04::run(ctx),
         "C05" => c05::run(ctx),
         "C08" => c08::run(ctx),
+        "C10" => c10::run(ctx),
         "C12" => c12::run(ctx),
+        "C13" => c13::run(ctx),
+        "C14" => c14::run(ctx),
         "C17" => c17::run(ctx),
         other => {
             eprintln!("rvmon: no monitor for property {other}");
